@@ -245,9 +245,9 @@ func (e *Env) Build(a *APkt, o BuildOpts, now time.Time) ([]byte, error) {
 			}
 			sender := now.Add(-time.Second)
 			if !a.Ep.Fresh {
-				sender = now.Add(-10 * time.Second)
+				sender = now.Add(-60 * time.Second)
 				if o.Stale == 1 {
-					sender = now.Add(10 * time.Second)
+					sender = now.Add(60 * time.Second)
 				}
 			}
 			ts0 := d.InfoFields[0].Timestamp
